@@ -149,6 +149,46 @@ def classify(impl_before_listed, op):
     return 'other'
 
 
+def proxy_index_disagreements(impl, stats=None):
+    """positional lookup on the by-name view against iteration / len / containment: for every child name an element
+    knows (real or traversal), proxy[i] for i in -len-1 .. len+1 must be list(proxy)[i], IndexError outside, and every
+    element handed out reports the owner as parent and is listed by it"""
+    out = []
+    for x in walk(impl):
+        ch = x.children
+        keys = []
+        for k in list(ch.indexes.keys()) + list(ch.traversal_indexes.keys()):
+            if isinstance(k, str) and k not in keys:
+                keys.append(k)
+        for k in keys:
+            try:
+                prox = getattr(x, k.lower())
+            except Exception:  # noqa  (a name the element no longer resolves)
+                continue
+            if not hasattr(prox, 'element_list'):
+                continue            # a long name shadowed by an attribute
+            try:
+                lst = list(prox)
+                n = len(prox)
+            except Exception:  # noqa
+                continue
+            if stats is not None:
+                stats['proxy_index_probes'] = stats.get('proxy_index_probes', 0) + 1
+            for i in range(-n - 1, n + 2):
+                try:
+                    got = prox[i]
+                except IndexError:
+                    got = IndexError
+                except Exception as ex:  # noqa
+                    got = type(ex)
+                want = lst[i] if -n <= i < n else IndexError
+                if got is not want:
+                    out.append(('proxy-index-vs-list', '%r.%s[%d] gives %r; len is %d and iteration gives %r'
+                                % (x, k.lower(), i, got, n, lst)))
+                    break
+    return out
+
+
 def make_hook(run, g, v, lvl, stats):
     """the oracle of one history: after every step, successful or rejected, the clauses of C10 on the live graph;
     after successful steps also the agreement of the name view with the list view"""
@@ -184,12 +224,14 @@ def make_hook(run, g, v, lvl, stats):
                      cause=cause, clause=viol[0][0], version=v, level=lvl, outcome=data[0],
                      ops=g.ops + [op], step=kk)
             return
-        if data[0] == 0:
+        dis = proxy_index_disagreements(impl, stats)
+        if not dis and data[0] == 0:
             dis = view_disagreements(impl)
-            if dis:
+        if dis:
+            if True:
                 state['broken'] = True
                 stats['histories_with_break'] += 1
-                run.fail('views-disagree', 'lookup by name and the children list disagree after a successful call: '
+                run.fail('views-disagree', 'lookup by name / position and the children list disagree: '
                          + dis[0][1][:300], clause=dis[0][0], operation=op[0], version=v, level=lvl,
                          ops=g.ops + [op], step=kk)
     return hook, state
